@@ -209,16 +209,16 @@ theorem step_invL_simple {s s' : State} {dead : List Inst} {x : Inst} {a : Act} 
         obtain ⟨rfl, rfl⟩ := act_on_last inv hi hc.1
         injection hstep with hstep; subst hstep
         have hfresh := allFresh_not_mem hc.2.1
-        refine ⟨{ xi with current := xi.current.filter (fun t => !rm.contains t.uri) ++ add,
+        refine ⟨{ xi with current := dropTables xi.current rm ++ add,
                           created := uris add ++ xi.created, made := uris add ++ xi.made }, ?_⟩
-        have := invL_tables (x' := { xi with current := xi.current.filter (fun t => !rm.contains t.uri) ++ add,
+        have := invL_tables (x' := { xi with current := dropTables xi.current rm ++ add,
                                               created := uris add ++ xi.created, made := uris add ++ xi.made })
           (F := (uris add).map File.sst ++ s.files) (U := uris add ++ s.used) inv rfl rfl rfl rfl rfl inv.norel (fun h => h)
           (fun f hf => List.mem_append_right _ hf) (fun u hu => List.mem_append_right _ hu)
           (by
             intro t' ht'
             rcases List.mem_append.mp ht' with ht' | ht'
-            · exact Or.inl (List.mem_filter.mp ht').1
+            · exact Or.inl (mem_dropTables ht')
             · have hm : t'.uri ∈ uris add := List.mem_map.mpr ⟨t', ht', rfl⟩
               exact Or.inr ⟨List.mem_append_left _ (List.mem_map.mpr ⟨t'.uri, hm, rfl⟩), List.mem_append_left _ hm⟩)
           (by
